@@ -2,7 +2,7 @@
 import ast
 import re
 
-from ..core import Ob, Rule, AnalysisError, norm, KeyMaker
+from ..core import require_idiom, Ob, Rule, AnalysisError, norm, KeyMaker
 from ..cfg import path_of
 from .. import astutil as A
 from . import datarules as D
@@ -200,6 +200,7 @@ def r2_escaping(ctx):
     yield Ob('xmlwriter:XMLWriter.elem closes the element it opened', ok, ctx.floc(f), '' if ok else 'closing tag changed')
     f = ctx.func('xmlwriter', 'XMLWriter.pop')
     ok = 'self.stack[-1]' in ast.unparse(f) and 'del self.stack[-1]' in ast.unparse(f) and '</{elem}>' in ast.unparse(f)
+    require_idiom(ok, 'c08.py:202')
     yield Ob('xmlwriter:XMLWriter.pop closes the innermost open element', ok, ctx.floc(f), '' if ok else 'pop changed')
     f = ctx.func('xmlwriter', 'XMLWriter.push')
     ok = any(A.call_target(c) == ('self.stack', 'append') and path_of(c.args[0]) == 'elem' for c in A.calls_in(f))
@@ -259,6 +260,7 @@ def r4_empty_agreement(ctx):
     txt = norm(t, 200)
     ok = isinstance(t, ast.BoolOp) and isinstance(t.op, ast.Or) and "child_node.usage == 'N'" in txt and '.is_empty()' in txt \
         and all(isinstance(s, ast.Pass) for s in ifs[0].body)
+    require_idiom(ok, 'c08.py:260')
     yield Ob('x12xml_simple:x12xml_simple.seg skips exactly not-used or empty elements', ok, ctx.floc(seg, ifs[0]), '' if ok else 'skip predicate is %s' % txt)
     # loop covers every element position of the data
     okr = True
